@@ -19,6 +19,11 @@ WIDTHS = [0, 1, 2, 3, 4, 5, 6] * 6 + [7, 8, 9, 15, 16, 17, 31, 32, 33, 63, 64, 6
 BINOPS = ["+", "-", "&", "|", "^"]
 
 
+def rwidth(rng):
+    """widths 0-6 densely, word boundaries, and (one in five) anything up to 2100"""
+    return rng.randint(0, 2100) if rng.random() < 0.2 else rng.choice(WIDTHS)
+
+
 def rint(rng):
     return rng.getrandbits(32)
 
@@ -118,8 +123,16 @@ def c08_exec(plan):
         try:
             res = None
             if op == "new":
-                H[s["dst"]] = Bits(s["val"], s["size"])
-                ev["a"] = {"dst": s["dst"], "val": s["val"], "size": s["size"]}
+                val, size, src = s["val"], s["size"], s.get("src", "int")
+                if src == "bytes" and size % 8:
+                    src = "list"
+                ev["a"] = {"dst": s["dst"], "val": val, "size": size, "src": src}
+                if src == "list":
+                    H[s["dst"]] = Bits(R.bits_of(val, size))
+                elif src == "bytes":
+                    H[s["dst"]] = Bits(R.to_bytes((val, size)))
+                else:
+                    H[s["dst"]] = Bits(val, size)
             elif op in ("copy", "bind"):
                 i = pick(u[0])
                 if i is None:
@@ -252,6 +265,8 @@ def c08_exec(plan):
                 if i is None:
                     raise _Skip()
                 k = u[1] % (H[i].size + 3)
+                if u[2] % 7 == 0:
+                    k += 2 * H[i].size + (u[3] % 70)       # far beyond the size
                 ev["a"] = {"h": i, "operator": s["operator"], "k": k, "dst": s["dst"]}
                 r = (H[i] << k) if s["operator"] == "<<" else (H[i] >> k)
                 H[s["dst"]] = r
@@ -362,8 +377,8 @@ class C08(Machine):
         # everybody starts from a few vectors built by client 0
         c0 = pb.client()
         for d in range(rng.randint(2, 4)):
-            w = rng.choice(WIDTHS)
-            pb.step(c0, op="new", dst=d, size=w, val=rng.getrandbits(w) if w else 0)
+            w = rwidth(rng)
+            pb.step(c0, op="new", dst=d, size=w, val=rng.getrandbits(w) if w else 0, src=rng.choice(["int", "int", "list", "bytes"]))
         clients = [c0] + [pb.client() for _ in range(nclients - 1)]
         budget = rng.randint(6, 22)
         for _ in range(budget):
@@ -372,8 +387,8 @@ class C08(Machine):
             u = [rint(rng) for _ in range(5)]
             dst = rng.randrange(NH)
             if r < 0.06:
-                w = rng.choice(WIDTHS)
-                pb.step(c, op="new", dst=dst, size=w, val=rng.getrandbits(w) if w else 0)
+                w = rwidth(rng)
+                pb.step(c, op="new", dst=dst, size=w, val=rng.getrandbits(w) if w else 0, src=rng.choice(["int", "int", "list", "bytes"]))
             elif r < 0.12:
                 pb.step(c, op=rng.choice(["copy", "bind", "bind"]), dst=dst, u=u)
             elif r < 0.20:
@@ -383,9 +398,9 @@ class C08(Machine):
             elif r < 0.40:
                 pb.step(c, op="setlist", u=u, rhs={"kind": rng.choice(["list", "bits", "int", "handle"]), "seed": rng.getrandbits(8)})
             elif r < 0.45:
-                pb.step(c, op="setsize", u=u, size=rng.choice(WIDTHS), rel=rng.choice([None, None, -1, 0, 1, 1, 8, -8]))
+                pb.step(c, op="setsize", u=u, size=rwidth(rng), rel=rng.choice([None, None, -1, 0, 1, 1, 8, -8]))
             elif r < 0.52:
-                pb.step(c, op=rng.choice(["zeroextend", "signextend", "extend"]), u=u, size=rng.choice(WIDTHS),
+                pb.step(c, op=rng.choice(["zeroextend", "signextend", "extend"]), u=u, size=rwidth(rng),
                         rel=rng.choice([None, None, -1, 0, 1, 1, 8]), dst=dst if rng.random() < 0.6 else None)
             elif r < 0.58:
                 o = rng.choice(BINOPS)
